@@ -88,7 +88,8 @@ def stage_translator(pid):
         st = json.load(open(os.path.join(WORK, "translator_status.json")))
     except (OSError, ValueError):
         st = {}
-    mine = {k: v for k, v in st.items() if k.lower().startswith(pid.lower() + "_")}
+    mine = {k: v for k, v in st.items()
+            if k.lower().startswith(pid.lower() + "_") or (isinstance(v, dict) and pid in v.get("properties", []))}
     if mine:
         return False, json.dumps(mine)
     return True, out
